@@ -470,7 +470,13 @@ def child_main(argv):
 
     items = battery(seed, n)
     res = {}
-    if mode == "only":
+    if mode.startswith("prime:"):
+        # a process whose very first use of the library is ONE small operation of a particular kind; only the canaries follow
+        what = mode.split(":", 1)[1]
+        {"text": lambda: str(ht.div("a<b")), "attr": lambda: str(ht.div(title="q\"'")), "escape_text": lambda: ht.html_escape("x&y"), "escape_attr": lambda: ht.html_escape("q\"", attr=True),
+         "html": lambda: str(ht.div(ht.HTML("<i>"))), "dep": lambda: ht.div(ht.HTMLDependency("p", "1.0")).render(), "doc": lambda: ht.HTMLDocument(ht.div("d")).render(),
+         "jsx": lambda: str(__import__("htmltools._jsx", fromlist=["x"]).jsx_tag_create("P")("c")), "nothing": lambda: None}[what]()
+    elif mode == "only":
         idx = [int(x) for x in argv[3].split(",")]
         res["only"] = {str(i): run_item(*items[i]) for i in idx}
     elif mode in ("forward", "reversed", "shuffled"):
@@ -593,6 +599,10 @@ def run(ctx):
     with ThreadPoolExecutor(max_workers=14) as ex:
         solo = list(ex.map(lambda i: (i, spawn(rng.choice([0, 7, 11]), ctx.seed, n, "only", str(i))["only"][str(i)]), sample))
     canaries += [(spawn(0, ctx.seed, 1, "only", "0").get("canary"), 0, "nearly-empty history")]
+    # processes whose first contact with the library is one operation of a particular kind (what is computed lazily on first use
+    # must not depend on what that first use was)
+    for what in ("text", "attr", "escape_text", "escape_attr", "html", "dep", "doc", "jsx", "nothing"):
+        canaries.insert(0, (spawn(0, ctx.seed, 1, "prime:" + what).get("canary"), 0, "first use: " + what))
     ref_c = canaries[-1][0]
     for c_, hs, od in canaries:
         ctx.count("monitor.canary_checks")
